@@ -328,6 +328,20 @@ def check_run_worker(ctx):
                   "n_batches resolves to %s" % sorted(lv), key="nb")
         st = A.get_arg(c, 4, "start_idx")
         ctx.check(R, c, "start_idx left at 0", st is None or A.const_value(st) == 0, "start_idx=%s shifts every range" % (A.unparse(st) if st is not None else ""), key="start")
+    # the task list is what batch_tasks produced: it may be re-built to attach the generators (one output element per task), never filtered, sliced or re-ordered
+    tnames = {canon(s_.targets[0]) for s_ in A.walk_local(fn) if isinstance(s_, ast.Assign) and isinstance(s_.value, ast.Call) and A.call_name(s_.value) == "batch_tasks" and isinstance(s_.targets[0], ast.Name)}
+    for s_ in A.walk_local(fn):
+        if isinstance(s_, ast.Assign) and isinstance(s_.targets[0], ast.Name) and s_.targets[0].id in tnames and not (isinstance(s_.value, ast.Call) and A.call_name(s_.value) == "batch_tasks"):
+            v_ = s_.value
+            okf = isinstance(v_, ast.ListComp) and len(v_.generators) == 1 and not v_.generators[0].ifs
+            ctx.check(R, s_, "a re-built task list keeps every task", okf,
+                      "`%s` re-binds the task list %s: batches are dropped or re-ordered before they reach the pool" % (A.unparse(s_)[:70], "through a filter" if isinstance(v_, ast.ListComp) else "to something that is not one element per task"), key="tasks-rebuilt")
+    for c_ in A.calls_in(fn):
+        if isinstance(c_.func, ast.Attribute) and c_.func.attr in ("pop", "remove", "sort", "reverse", "clear", "insert") and canon(c_.func.value) in tnames:
+            ctx.violate(R, c_, "the task list is not edited", "`%s` changes the task list in place" % A.unparse(c_)[:50], key="tasks-edited")
+    for d_ in A.walk_local(fn):
+        if isinstance(d_, ast.Delete) and any(isinstance(t_, ast.Subscript) and canon(t_.value) in tnames for t_ in d_.targets):
+            ctx.violate(R, d_, "the task list is not edited", "`%s` deletes tasks" % A.unparse(d_)[:50], key="tasks-edited")
     # both selectors rejected (path-condition based: `if a and b: raise` and `if a: if b: raise` are the same guard)
     g = A.find_raising_guard(fn, A.nnf_of_src("n_prior_samples is not None and samples_idx is not None"))
     ctx.check(R, g or fn, "both selectors rejected", g is not None, "no unconditional raise when n_prior_samples and samples_idx are both given", key="both")
@@ -471,5 +485,11 @@ def run(ctx):
     ctx.rule("C16-ATTACH", "attaching the per-task generators keeps the task list whole: one child per task (spawn(len(tasks))), task i extended in place by its own child "
                            "(shared with C10-SPAWN) - pairing the tasks with a shorter sequence drops batches.")
     check_spawn(_Relabel(ctx, {"C10-SPAWN": "C16-ATTACH"}))
+    from . import _rej
+    from .C14 import check_chain
+    ctx.rule("C16-CHAIN", "iterative sampler: the index windows handed to run_worker are consecutive - each starts where the previous one ended (the cursor advances by the "
+                          "size just evaluated) - so the windows themselves partition the evaluated prefix (shared with C14-CHAIN).")
+    for mod, name in _rej.SITES[2:]:
+        check_chain(ctx, _rej.analyze(ctx.prog, mod, name), R="C16-CHAIN")
     ctx.assume("Python integer // and % satisfy n = (n//k)*k + n%k with 0 <= n%k < k for k >= 1")
     ctx.assume("pool.map preserves task order (schwimmbad / multiprocessing contract)")
